@@ -1,6 +1,8 @@
 import OasisProofs.Helpers.MkvsChunkBasic
 import OasisProofs.Helpers.MkvsChunkTerm
 import OasisProofs.Helpers.MkvsChunkCover
+import OasisProofs.Helpers.MkvsChunkSeq
+import OasisProofs.Helpers.MkvsChunkConc
 import OasisProofs.Helpers.MkvsUnique
 /-
 C12 — checkpoints restore to exactly the checkpointed state.
@@ -44,7 +46,7 @@ What is proved here and what is only checked:
     by the byte-exact correspondence and by repetition under GOMAXPROCS 1..16.
 -/
 namespace OasisProofs.C12
-open OasisModel.Mkvs OasisProofs.Mkvs OasisProofs.MkvsProof OasisProofs.MkvsChunk
+open OasisModel.Mkvs OasisProofs.Mkvs OasisProofs.MkvsProof OasisProofs.MkvsChunk OasisProofs.MkvsIter
 
 /-- **Every chunk is a proof** (sequential chunker): it is what `ProofBuilder.Build` emits for some
 included node set, anchored at the root. -/
@@ -199,6 +201,112 @@ theorem par_restore_exact {H : Bytes → Bytes} (hinj : Function.Injective H) (h
     (∀ x ∈ T.nodeHashes H, x ∈ (rsRestoreChunk H (hashWith H T) (rsRun H (hashWith H T) {} evs) idx c).2.db) :=
   restore_exact hinj hlen T hwf hb _ (par_chunks_cover hlen T hwf hb hd size threads) evs hev idx c hc hdone
 
+/-- **The sequential chunker terminates**: its loops (fill one chunk; chunk after chunk) carry fuel
+`seqFuel root` = number of keys + 1; with any amount of additional fuel the chunk list is the same, for
+every chunk size (0 and 1 byte included). Rests on the ordering correctness of the iterator machine
+(`iterate`/`nextLoop` = successor in the ordered contents, OasisProofs/Helpers/MkvsIterMachine.lean) through
+the structural bridge to the iterator with proof builder. -/
+theorem seq_chunking_terminates {H : Bytes → Bytes} (T : Trie) (hwf : WF T) (size j k : Nat) :
+    seqChunksF (seqFuel (annotate H T) + j) (seqFuel (annotate H T) + k) size (annotate H T) =
+      seqChunks (H []) size (annotate H T) :=
+  seqChunksF_fuel (H []) size (annotate H T) (by rw [annotate_erase]; exact hwf) j k
+
+/-- **The chunks of the sequential chunker cover the tree**: every node is materialised by some chunk
+(the iterator visits every key, chunk after chunk, and every node it dereferences on the way — in
+particular the whole path to a found key — is in that chunk's proof). -/
+theorem seq_chunks_cover {H : Bytes → Bytes} (hlen : ∀ x, (H x).length = 32)
+    (T : Trie) (hwf : WF T) (hb : ContentsBounded T.toList)
+    (hd : (annotate H T).ptrDepth ≤ maxProofDepth) (size : Nat) :
+    coverB H (hashWith H T) T (seqChunks (H []) size (annotate H T)) = true := by
+  have hok := annotate_ok H (wfAt_bounded hwf hb)
+  have hwf' : WF (annotate H T).erase := by rw [annotate_erase]; exact hwf
+  simp only [coverB, List.all_eq_true, List.contains_iff_mem, List.mem_flatMap]
+  intro h hh
+  rw [← annotate_erase H T] at hh
+  obtain ⟨pos, hpos, hph⟩ := nodeHashes_positions (annotate H T) [] hok h hh
+  obtain ⟨incl, hincl, hcov⟩ := seq_positions_covered size (annotate H T) hwf'
+    (by rw [seqFuel, count_eq_length]; omega) pos hpos
+  refine ⟨buildFrom 0 incl (annotate H T), ?_, ?_⟩
+  · simp only [seqChunks, seqLoop_eq_map, List.mem_map]
+    exact ⟨incl, hincl, rfl⟩
+  · have hv := verifyProof_build hlen 0 (by omega) incl (annotate H T) hok
+    rw [annotate_hash] at hv
+    unfold build at hv
+    rw [if_pos (Nat.le_trans (proofDepth_le_ptrDepth _ _ _) hd)] at hv
+    simp only [chunkNodes, annotate_hash] at hv ⊢
+    rw [hv]
+    exact covered_restrict incl (annotate H T) [] hok pos hpos hcov.1
+      (fun a ha => hcov.2 a (by simpa using ha)) h hph
+
+/-- **Checkpoints of the sequential chunker restore to exactly the checkpointed tree** (as
+`par_restore_exact`, for `chunkerThreads = 0`). -/
+theorem seq_restore_exact {H : Bytes → Bytes} (hinj : Function.Injective H) (hlen : ∀ x, (H x).length = 32)
+    (T : Trie) (hwf : WF T) (hb : ContentsBounded T.toList)
+    (hd : (annotate H T).ptrDepth ≤ maxProofDepth) (size : Nat)
+    (evs : List REvent) (hev : ∀ e ∈ evs, HonestEvent (seqChunks (H []) size (annotate H T)) e)
+    (idx : Nat) (c : ChunkData)
+    (hc : c.digestOk = true → c.entries = (seqChunks (H []) size (annotate H T))[idx]?)
+    (hdone : (rsRestoreChunk H (hashWith H T) (rsRun H (hashWith H T) {} evs) idx c).1 = .ok true) :
+    (∀ x ∈ (rsRestoreChunk H (hashWith H T) (rsRun H (hashWith H T) {} evs) idx c).2.db, x ∈ T.nodeHashes H) ∧
+    (∀ x ∈ T.nodeHashes H, x ∈ (rsRestoreChunk H (hashWith H T) (rsRun H (hashWith H T) {} evs) idx c).2.db) :=
+  restore_exact hinj hlen T hwf hb _ (seq_chunks_cover hlen T hwf hb hd size) evs hev idx c hc hdone
+
+/-! ### The restorer under concurrent callers -/
+
+/-- `RestoreChunk` is phase 1 (pending check under the lock) followed by the import and phase 2
+(bookkeeping under the lock): the sequential machine used above is their composition. -/
+theorem restorer_two_phase (H : Bytes → Bytes) (root : Bytes) (rs : Restorer) (idx : Nat) (c : ChunkData) :
+    rsRestoreChunk H root rs idx c =
+      (match rsBegin rs idx with
+       | .error e => (.error e, rs)
+       | .ok _ => rsFinish H root rs idx c) :=
+  rsRestoreChunk_two_phase H root rs idx c
+
+/-- **Concurrent sessions are sound**: for every interleaving of `StartRestore`, `AbortRestore` and the
+two phases of any number of concurrent `RestoreChunk` calls, with arbitrary chunk bytes, the database
+only ever contains nodes of the checkpointed tree. -/
+theorem concurrent_session_sound {H : Bytes → Bytes} (hinj : Function.Injective H) (hlen : ∀ x, (H x).length = 32)
+    (T : Trie) (hwf : WF T) (hb : ContentsBounded T.toList) (evs : List CEvent) :
+    ∀ x ∈ (cRun H (hashWith H T) {} evs).rs.db, x ∈ T.nodeHashes H :=
+  cRun_sound hinj hlen T (wfAt_bounded hwf hb) evs {} (by intro x hx; simp at hx)
+
+/-- **Each chunk index is imported at most once per session** (linearised calls): after a successful
+`RestoreChunk(idx)`, every later `RestoreChunk(idx)` before the next `StartRestore` is refused
+(`ErrChunkAlreadyRestored`, or `ErrNoRestoreInProgress` after completion/abort) and imports nothing. -/
+theorem restore_at_most_once (H : Bytes → Bytes) (root : Bytes) (rs : Restorer) (idx : Nat) (c : ChunkData) (b : Bool)
+    (h : (rsRestoreChunk H root rs idx c).1 = .ok b) (evs : List REvent) (hns : ∀ e ∈ evs, ∀ n, e ≠ .start n)
+    (c' : ChunkData) :
+    let rs' := rsRun H root (rsRestoreChunk H root rs idx c).2 evs
+    ((rsRestoreChunk H root rs' idx c').1 = .error .alreadyRestored ∨
+     (rsRestoreChunk H root rs' idx c').1 = .error .noRestore) ∧
+    (rsRestoreChunk H root rs' idx c').2.db = rs'.db :=
+  rs_at_most_once H root rs idx c b h evs hns c'
+
+/-- **Completion iff all indices imported** (linearised calls): a successful `RestoreChunk(idx)`
+reports completion exactly when `idx` was the last pending index; together with `restore_exact`
+(completion ⇒ every chunk imported) this is "done iff everything is in". -/
+theorem restore_done_iff (H : Bytes → Bytes) (root : Bytes) (rs : Restorer) (idx : Nat) (c : ChunkData) (b : Bool)
+    (h : (rsRestoreChunk H root rs idx c).1 = .ok b) : b = true ↔ ∀ i ∈ rs.pending, i = idx :=
+  rs_done_iff H root rs idx c b h
+
+/-- **Completion under concurrency.** For every interleaving of the phases of concurrent `RestoreChunk`
+calls (honest chunk bytes) in which no abort or restart cuts through a call in flight — `Calm`: an
+explicit `AbortRestore`/`StartRestore`, or the abort `RestoreChunk` performs on a proof failure, only
+happens while no other call is between its phases — whenever a call reports completion, every chunk
+of the checkpoint has been imported. -/
+theorem concurrent_done_all_imported {H : Bytes → Bytes} {root : Bytes} (cs : List (List (Option Bytes)))
+    (evs : List CEvent) (hh : ∀ e ∈ evs, HonestCEvent cs e) (hcalm : Calm H root {} evs)
+    (ev : CEvent) (hev : HonestCEvent cs ev) (hc : calmStep H root (cRun H root {} evs) ev)
+    (hdone : (cStep H root (cRun H root {} evs) ev).2 = some (.ok true)) :
+    ∀ i, i < cs.length → ∀ x ∈ imported H root cs i, x ∈ (cStep H root (cRun H root {} evs) ev).1.rs.db :=
+  calm_done_all_in cs evs {} ⟨fun n hn => by simp at hn, fun _ hne => absurd rfl hne⟩ hh hcalm ev hev hc hdone
+
+/- The linearisation hypothesis is forced by the code: phase 2 does not check that the restore phase 1
+saw is still in progress. With a call in flight across an abort (which `RestoreChunk` itself performs
+when another caller's chunk fails proof verification) the in-flight call reports completion although
+other chunks were never imported — witnessed below on the model and reproduced on the real restorer by
+the driver (finding `restorer-done-after-concurrent-abort`). -/
+
 /-! ### Non-vacuity -/
 
 def toyHash (x : Bytes) : Bytes :=
@@ -214,6 +322,10 @@ example : (seqChunks (toyHash []) 1 (annotate toyHash smallTree)).length = 3 ∧
     coverB toyHash (hashWith toyHash smallTree) smallTree (parChunks (toyHash []) 1 2 (annotate toyHash smallTree)) = true := by
   decide +kernel
 
+def isDone' : Option (Except RErr Bool) → Bool
+  | some (.ok true) => true
+  | _ => false
+
 def isDone : Except RErr Bool → Bool
   | .ok true => true
   | _ => false
@@ -225,6 +337,17 @@ example :
     let ev (i : Nat) : REvent := .chunk i { digestOk := true, entries := cs[i]? }
     let rs := rsRun toyHash root {} [.start 3, ev 2, ev 0, ev 2]
     isDone (rsRestoreChunk toyHash root rs 1 { digestOk := true, entries := cs[1]? }).1 = true := by
+  decide +kernel
+
+/-- **Witness: completion reported after a concurrent abort.** Three chunks; caller A passes phase 1 for
+chunk 0; the restore is aborted (as `RestoreChunk` does when caller B's chunk fails verification); A's
+import and phase 2 then report `done = true` although chunks 1 and 2 were never imported. -/
+theorem done_after_concurrent_abort_witness :
+    let cs := seqChunks (toyHash []) 1 (annotate toyHash smallTree)
+    let root := hashWith toyHash smallTree
+    let s := cRun toyHash root {} [.start 3, .begin 0, .abort]
+    isDone' (cStep toyHash root s (.finish 0 { digestOk := true, entries := cs[0]? })).2 = true ∧
+    coverB toyHash root smallTree [cs[0]!] = false := by
   decide +kernel
 
 end OasisProofs.C12
